@@ -179,3 +179,47 @@ Section Compose.
     - apply compile_link_seq_ok; try assumption. apply both_ok_nil.
   Qed.
 End Compose.
+
+(* ---- totality of the link phase: when the import relation between files is well founded (a rank that decreases
+   along Dependency lists) and every imported file can be found, linking returns with more fuel than the rank.
+   (The Go code needs no fuel: it recurses along the same relation and reports a circular file import.) *)
+Section LinkTotal.
+  Context {D L : Type}.
+  Variable lookup : bytes -> option D.
+  Variable deps_of : D -> list bytes.
+  Variable link1 : D -> list L -> L.
+  Variable rank : bytes -> nat.
+  Hypothesis Hwf : forall n d, lookup n = Some d -> forall dep, In dep (deps_of d) -> lookup dep <> None /\ (rank dep < rank n)%nat.
+
+  Lemma link_deps_total fuel :
+    (forall c n, lookup n <> None -> (rank n < fuel)%nat -> exists c' l, link_file lookup deps_of link1 fuel c n = Some (c', l)) ->
+    forall ds c ls, (forall dep, In dep ds -> lookup dep <> None /\ (rank dep < fuel)%nat) ->
+      exists c' ls', fold_left (link_step lookup deps_of link1 fuel) ds (Some (c, ls)) = Some (c', ls').
+  Proof.
+    intro IH. induction ds as [|d r IHd]; intros c ls Hd; cbn [fold_left]; [eauto|].
+    destruct (Hd d (or_introl eq_refl)) as [Hl Hr].
+    destruct (IH c d Hl Hr) as [c1 [l E]]. cbn [link_step]. rewrite E.
+    apply IHd. intros dep Hin. apply Hd. right. exact Hin.
+  Qed.
+
+  Theorem link_file_total : forall fuel c n, lookup n <> None -> (rank n < fuel)%nat ->
+    exists c' l, link_file lookup deps_of link1 fuel c n = Some (c', l).
+  Proof.
+    induction fuel as [|fuel IH]; intros c n Hl Hr; [lia|].
+    cbn [link_file]. destruct (map_get n c) as [l0|]; [eauto|].
+    destruct (lookup n) as [d|] eqn:Ed; [|contradiction].
+    fold (link_step lookup deps_of link1 fuel).
+    destruct (link_deps_total fuel (fun c n => IH c n) (deps_of d) c []) as [c1 [ls E]].
+    { intros dep Hin. destruct (Hwf n d Ed dep Hin) as [H1 H2]. split; [exact H1|lia]. }
+    rewrite E. eauto.
+  Qed.
+
+  Theorem link_all_total : forall fuel names c, (forall n, In n names -> lookup n <> None /\ (rank n < fuel)%nat) ->
+    exists c' ls, link_all lookup deps_of link1 fuel c names = Some (c', ls).
+  Proof.
+    intros fuel. induction names as [|n r IH]; intros c Hn; cbn [link_all]; [eauto|].
+    destruct (Hn n (or_introl eq_refl)) as [Hl Hr].
+    destruct (link_file_total fuel c n Hl Hr) as [c1 [l E]]. rewrite E.
+    destruct (IH c1 (fun x Hx => Hn x (or_intror Hx))) as [c2 [ls E2]]. rewrite E2. eauto.
+  Qed.
+End LinkTotal.
